@@ -2,11 +2,7 @@
 
 package jtp
 
-import (
-	"time"
-
-	lru "github.com/hashicorp/golang-lru/v2"
-)
+import "time"
 
 // VerifPurgeCache empties the process-wide response cache.
 func VerifPurgeCache() {
@@ -15,45 +11,5 @@ func VerifPurgeCache() {
 	}
 }
 
-// VerifSetCacheSize recreates the cache with the given capacity (as start-up would
-// with cache_size = n).
-func VerifSetCacheSize(n int) error {
-	c, err := lru.New[string, bundle](n)
-	cache = c
-	return err
-}
-
-func VerifCacheKeys() []string {
-	if cache == nil {
-		return nil
-	}
-	return cache.Keys()
-}
-
 func VerifSetTimeout(d time.Duration) { dialer.Timeout = d }
 func VerifTimeout() time.Duration     { return dialer.Timeout }
-
-// VerifCacheDump describes every cache entry (in LRU order, oldest first) for the
-// explicit-state searches: key, whether a document is stored, its source, its error.
-func VerifCacheDump() []string {
-	if cache == nil {
-		return nil
-	}
-	var out []string
-	for _, k := range cache.Keys() {
-		b, _ := cache.Peek(k)
-		s, e := "-", "-"
-		if b.source != nil {
-			s = b.source.String()
-		}
-		if b.err != nil {
-			e = "err"
-		}
-		d := "nodoc"
-		if b.item != nil {
-			d = "doc"
-		}
-		out = append(out, k+"|"+d+"|"+s+"|"+e)
-	}
-	return out
-}
